@@ -360,6 +360,7 @@ func genC(t *rapid.T) History {
 		}
 	}
 	h.Ops = append(h.Ops, ops...)
+	h.Ops = withCrafted(t, h.Ops, nreg)
 	return h
 }
 
